@@ -219,9 +219,21 @@ pub fn cases(seed: u64, tier: Tier) -> Cases {
 
         // ---- partition: direct and propagated
         let e = DynError { code: code.clone(), name: name.clone(), safe, ty: ty.clone(), val: val.clone(), id };
+        let e_wrapped = DynError { code: code.clone(), name: name.clone(), safe, ty: ty.clone(), val: val.clone(), id };
+        let e_ref = DynError { code: code.clone(), name: name.clone(), safe, ty: ty.clone(), val: val.clone(), id };
         let se3 = se.clone();
         let r = guarded(move || {
+            let keys = |p: conjure_error::Params<'_>| {
+                let mut v: Vec<String> = p.iter().map(|(k, _)| k.to_string()).collect();
+                v.sort();
+                v
+            };
+            // the same error behind the library's own wrappers: an overriding instance id, a reference
+            let w = Error::service("cause", e_wrapped.with_instance_id(Uuid::from_u128(0x1234_5678_9abc_4def_8123_4567_89ab_cdef)));
+            let rf = Error::service_safe("cause", &e_ref);
             let direct = Error::service("cause", e);
+            assert!(keys(w.safe_params()) == keys(direct.safe_params()) && keys(w.unsafe_params()) == keys(direct.unsafe_params()), "WRAPPED: with_instance_id changes the partition: safe {:?} unsafe {:?}", keys(w.safe_params()), keys(w.unsafe_params()));
+            assert!(keys(rf.safe_params()) == keys(direct.safe_params()) && keys(rf.unsafe_params()) == keys(direct.unsafe_params()), "WRAPPED: a borrowed error changes the partition: safe {:?} unsafe {:?}", keys(rf.safe_params()), keys(rf.unsafe_params()));
             let prop = Error::propagated_service("cause", se3);
             let keys = |p: conjure_error::Params<'_>| {
                 let mut v: Vec<String> = p.iter().map(|(k, _)| k.to_string()).collect();
@@ -234,6 +246,10 @@ pub fn cases(seed: u64, tier: Tier) -> Cases {
         let op = format!("partition {} {} {}", safe_txt, ty.txt(), val.txt());
         let note = format!("Error::service(.., error with safe_args {:?}) over {}", safe_names, val.txt());
         match r {
+            Err(p) if p.starts_with("WRAPPED: ") => {
+                cs.push("partition", "noop".into(), "noop".into(), true, note);
+                cs.fail_last("partition:wrapped", format!("{} (error with safe_args {:?} over {})", &p[9..], safe_names, val.txt()));
+            }
             Err(p) => {
                 cs.push("partition", op, "panic".into(), true, note);
                 cs.fail_last("partition:panic", p);
